@@ -2,11 +2,12 @@
 """tools/seedsuite.py [ids...]: apply every stored seeded change (seeded/<id>/patch.diff) to a scratch worktree of
 /repo and run the quick check of its property against it; prints which are caught. Regression suite for the checks."""
 import json, os, subprocess, sys, glob
-ids = sys.argv[1:] or sorted(os.path.basename(d) for d in glob.glob("/verif/seeded/*"))
+HOME = os.path.dirname(os.path.dirname(os.path.abspath(__file__)))  # the tree this script belongs to (a vp-run snapshot stays self-contained)
+ids = sys.argv[1:] or sorted(os.path.basename(d) for d in glob.glob(HOME + "/seeded/*"))
 budget = os.environ.get("BUDGET", "12")
 res = {}
 for sid in ids:
-    d = "/verif/seeded/" + sid
+    d = HOME + "/seeded/" + sid
     meta = json.load(open(d + "/meta.json"))
     prop = meta["property"]
     wt = "/tmp/seedsuite-" + sid
@@ -18,7 +19,7 @@ for sid in ids:
             res[sid] = "PATCH-DOES-NOT-APPLY"
             print(sid, res[sid], flush=True)
             continue
-        r = subprocess.run(["/verif/verif", "check", prop, "--budget", budget], env=dict(os.environ, VERIF_REPO=wt), stdout=subprocess.PIPE, stderr=subprocess.DEVNULL, text=True)
+        r = subprocess.run([HOME + "/verif", "check", prop, "--budget", budget], env=dict(os.environ, VERIF_REPO=wt), stdout=subprocess.PIPE, stderr=subprocess.DEVNULL, text=True)
         cls = sorted(set(l.split("class=")[1].split(" ")[0] for l in r.stdout.splitlines() if "class=" in l))
         res[sid] = ("caught " if r.returncode == 1 else "MISSED exit=%d " % r.returncode) + ",".join(cls)[:200]
         print(sid, prop, res[sid], flush=True)
